@@ -411,6 +411,49 @@ def tie_pattern(scen, v):
         return False
 
 
+def extra_covers(scen, v):
+    """Root-cause pattern of F-C06-4: some *extra* (inapplicable) method has a parameter whose
+    declared type covers the differing call's argument at that position / keyword."""
+    try:
+        from ovld.mro import subclasscheck
+        from ovld.types import normalize_type
+        from ovld.utils import subtler_type
+
+        from ..world import ann_src
+
+        begin_run()
+        fam, cfg = scen["family"], scen["config"]
+        w = World(fam["spec"])
+        c = v.get("call") or fam["corpus"][v["call_index"]]
+        args = [w.value(x) for x in c.get("args", [])]
+        kw = {k: w.value(x) for k, x in c.get("kw", {}).items()}
+        for mid in cfg.get("extras") or []:
+            pos = 0
+            for name, kind, ann, _ in fam["spec"]["methods"][mid]["params"]:
+                if kind == "kw":
+                    if name not in kw:
+                        continue
+                    val = kw[name]
+                else:
+                    if pos >= len(args):
+                        pos += 1
+                        continue
+                    val = args[pos]
+                    pos += 1
+                t = normalize_type(eval(ann_src(ann), w.mod.__dict__), None)
+                if t is object:
+                    continue
+                for at in {type(val), subtler_type(val)}:
+                    try:
+                        if subclasscheck(at, t):
+                            return True
+                    except Exception:  # noqa: BLE001
+                        pass
+        return False
+    except Exception:  # noqa: BLE001
+        return None
+
+
 def rank_composition_differs(scen, v):
     """Re-run reference and configuration with MultiTypeMap.mro recorded: does some resolution
     partition its candidates into different ranks (as sets) under the two orders?
@@ -458,7 +501,8 @@ def signature(scen, v):
             "sites": "+".join(v.get("sites") or []),
             "extra_kinds": "+".join(v.get("extra_kinds") or []),
             "dependent_candidates_tied": tie_pattern(scen, v),
-            "rank_composition_differs": rank_composition_differs(scen, v)}
+            "rank_composition_differs": rank_composition_differs(scen, v),
+            "extra_covers_argument": extra_covers(scen, v)}
 
 
 def size(scen):
